@@ -2,5 +2,4 @@ package main
 
 import "fmt"
 
-func cmdSelftest(args []string) { fmt.Println("selftest: not built yet") }
-func cmdBounded(args []string)  { fmt.Println("bounded: not built yet") }
+func cmdBounded(args []string) { fmt.Println("bounded: not built yet") }
